@@ -304,7 +304,7 @@ def rotate_family(tier, seed):
        functions=['dump.conventional_to_primitive', 'dump.primitive_to_conventional'],
        clause='conventional-to-primitive and primitive-to-conventional conversions are re-expressions of the same crystal (atom count scales by the lattice-point multiplicity, every atom maps back modulo the '
               'lattice onto an original atom of the same type) and undo one another',
-       rule='centred cells {fcc f, bcc i, bct i, fco f, base-centred c / a / b, rhombohedral in the hexagonal setting t1 / t2 with a 2-type basis, 2-type fcc} each with origin 0 and a non-lattice origin; distinct by (cell, origin); non-trivial = every case')
+       rule='centred cells {fcc f, bcc i, bct i, fco f, base-centred c / a / b, rhombohedral in the hexagonal setting t1 / t2 with a 2-type basis, 2-type fcc; with check_basis=False: zincblende in origin choice 2 and a body-centred pair off the lattice points} each with origin 0 and a non-lattice origin; distinct by (cell, origin); non-trivial = every case')
 def conversions_family(tier, seed):
     from pyvc.native import atomman
     import numpy as np
@@ -324,9 +324,14 @@ def conversions_family(tier, seed):
                          [1, 1, 1, 2, 2, 2], 't1', 3)
     cells['rhomb_t2'] = (am.Box.hexagonal(3.2, 7.8), [[0, 0, 0], [1 / 3, 2 / 3, 1 / 3], [2 / 3, 1 / 3, 2 / 3], [0, 0, 0.25], [1 / 3, 2 / 3, 1 / 3 + 0.25], [2 / 3, 1 / 3, 2 / 3 + 0.25]],
                          [1, 1, 1, 2, 2, 2], 't2', 3)
+    # motifs with no atom on a lattice point (zincblende in origin choice 2; a body-centred pair off the lattice points): converted with check_basis=False, as documented for such cells
+    e8 = np.array([0.125, 0.125, 0.125])
+    cells['zb_origin2'] = (am.Box.cubic(5.65), [list((np.array(q) + e8) % 1) for q in fccpos] + [list((np.array(q) - e8) % 1) for q in fccpos], [1] * 4 + [2] * 4, 'f', 4, False)
+    cells['bcc_offlattice'] = (am.Box.cubic(3.1), [[0.2, 0.1, 0.3], [0.7, 0.6, 0.8]], [1, 1], 'i', 2, False)
     fails, samples = [], []
     evals = 0
-    for cname, (box, spos, atype, setting, mult) in cells.items():
+    for cname, spec_ in cells.items():
+        (box, spos, atype, setting, mult), check_basis = spec_[:5], (spec_[5] if len(spec_) > 5 else True)
         for oname, origin in (('zero', np.zeros(3)), ('shifted', np.array([0.37, -1.21, 0.55]))):
             evals += 1
             key = '%s,origin=%s' % (cname, oname)
@@ -334,7 +339,7 @@ def conversions_family(tier, seed):
             try:
                 bx = am.Box(vects=box.vects, origin=origin)
                 conv = am.System(atoms=am.Atoms(atype=atype, pos=np.array(spos).dot(box.vects) + origin), box=bx, symbols=['A', 'B'][:max(atype)])
-                prim, T = conv.dump('conventional_to_primitive', setting=setting, return_transform=True)
+                prim, T = conv.dump('conventional_to_primitive', setting=setting, return_transform=True, **({} if check_basis else {'check_basis': False}))
                 if prim.natoms * mult != conv.natoms:
                     msgs.append('primitive cell has %d atoms, expected %d' % (prim.natoms, conv.natoms // mult))
                 if not np.isclose(prim.box.volume * mult, conv.box.volume, rtol=1e-8):
@@ -343,15 +348,22 @@ def conversions_family(tier, seed):
                 back = (prim.atoms.pos - prim.box.origin).dot(T)
                 sc = conv.atoms_prop('pos', scale=True)
                 Vc = conv.box.vects
+                # absolute positions: every primitive atom, taken back through T and measured from the cell origins, is an original atom of the same type modulo the conventional lattice
+                back_abs = prim.atoms.pos.dot(T) - conv.box.origin            # absolute positions are rotated by T (the primitive cell itself is placed at the coordinate origin)
                 for k in range(prim.natoms):
-                    sk = (back[k]).dot(np.linalg.inv(Vc))
+                    sk = (back_abs[k]).dot(np.linalg.inv(Vc))
                     ok = False
                     for i in range(conv.natoms):
-                        d = sk - (sc[i] - sc[0] * 0)
-                        d = d - (np.zeros(3))
-                        # allow the documented re-centring (one atom moved to the origin): compare differences between atoms instead of absolute positions
-                        ok = True
-                    # difference vectors between primitive atoms must be conventional-lattice differences of same-type atoms
+                        if conv.atoms.atype[i] != prim.atoms.atype[k]:
+                            continue
+                        d = sk - sc[i]
+                        if np.allclose(d, np.round(d), atol=1e-6):
+                            ok = True
+                            break
+                    if not ok:
+                        msgs.append('primitive atom %d (type %d), taken back through the returned transformation, lies at relative %r of the conventional cell: not an atom of that type' % (
+                            k, prim.atoms.atype[k], np.round(sk, 4).tolist()))
+                        break
                 for a_, b_ in itertools.combinations(range(prim.natoms), 2):
                     dv = (back[b_] - back[a_]).dot(np.linalg.inv(Vc))
                     found = False
